@@ -26,6 +26,10 @@ pub struct Trace {
     pub faults: Vec<Fault>,
     /// interrupt the k-th read(2) on the input file with EINTR (strace syscall fault injection)
     pub eintr_at: Option<u32>,
+    /// scale: instead of `source`, a file of header + `0` x (OpCapability Shader) + one final word `1`
+    /// (files beyond 64 KiB / 16 MiB; the final word decides between a valid end and a late parse error)
+    #[serde(default)]
+    pub big: Option<(u32, u32)>,
 }
 
 pub struct C20;
@@ -122,7 +126,15 @@ impl Property for C20 {
                 let mut cfg = ProdCfg::parser_default(rng);
                 cfg.allow_other = rng.chance(1, 2);
                 cfg.max_insts = cfg.max_insts.max(3);
+                cfg.giant = true;
+                if rng.chance(1, 3) {
+                    cfg.max_funcs = 0; // modules without functions: the last line is a module-level instruction
+                }
                 let mut stream = gen_stream(rng, cfg);
+                if rng.chance(1, 120) {
+                    // scale features are cheap here relative to a process execution: make them common
+                    crate::producer::plant_giant(rng, &mut stream);
+                }
                 if rng.chance(1, 4) {
                     // ext inst import + ext inst with boundary numbers (name rendering path of the disassembler)
                     crate::producer::plant_ext_inst(rng, &mut stream);
@@ -163,14 +175,31 @@ impl Property for C20 {
         };
         let share = if tier == Tier::Quick { 12 } else { 8 };
         let eintr_at = if rng.chance(1, share) { Some(rng.range(1, 2) as u32) } else { None };
-        Trace { source, faults, eintr_at }
+        let big = if rng.chance(1, 4000) {
+            let count = *rng.pick(&[8_190u32, 8_192, 2_097_149, 2_097_150, 2_097_152, 2_200_000]);
+            Some((count, *rng.pick(&[0u32, 0x0002_0011, 0x0001_FFFF, 0x0001_0000])))
+        } else {
+            None
+        };
+        Trace { source, faults, eintr_at: if big.is_some() { None } else { eintr_at }, big }
     }
 
     fn execute(t: &Trace, cov: &mut Cov) -> RunOut {
         let mut h = AbsHash::new();
-        let (bytes, fired) = match &t.source {
-            Source::Raw(b) => (b.clone(), vec![]),
-            Source::Stream(st) => faults::apply(st, &t.faults),
+        let (bytes, fired) = match (&t.big, &t.source) {
+            (Some((count, tail)), _) => {
+                cov.hit("reached.file_beyond_16_mib_or_64_kib");
+                let mut w: Vec<u32> = Vec::with_capacity(6 + 2 * *count as usize);
+                w.extend_from_slice(&[MAGIC, 0x0001_0000, 0, 1, 0]);
+                for _ in 0..*count {
+                    w.push(0x0002_0011);
+                    w.push(1);
+                }
+                w.push(*tail);
+                (words_to_bytes(&w), vec![])
+            }
+            (None, Source::Raw(b)) => (b.clone(), vec![]),
+            (None, Source::Stream(st)) => faults::apply(st, &t.faults),
         };
         for f in &fired {
             cov.hit(f);
@@ -209,7 +238,7 @@ impl Property for C20 {
             None => {
                 let mut c = Command::new(&bin);
                 c.arg(&path);
-                run_with_timeout(c, 20)
+                run_with_timeout(c, if t.big.is_some() { 120 } else { 20 })
             }
             Some(k) => {
                 injected = true;
@@ -294,6 +323,16 @@ impl Property for C20 {
             c.eintr_at = None;
             out.push(c);
         }
+        if let Some((count, tail)) = t.big {
+            for c2 in [count / 2, count - 1] {
+                if c2 > 0 && c2 != count {
+                    let mut c = t.clone();
+                    c.big = Some((c2, tail));
+                    out.push(c);
+                }
+            }
+            return out;
+        }
         for fl in faults::shrink_faults(&t.faults) {
             let mut c = t.clone();
             c.faults = fl;
@@ -301,7 +340,7 @@ impl Property for C20 {
         }
         match &t.source {
             Source::Stream(st) => {
-                for j in (0..st.insts.len()).rev() {
+                for j in shrink_indices(st.insts.len()).into_iter().take(40) {
                     let mut c = t.clone();
                     if let Source::Stream(s2) = &mut c.source {
                         s2.insts.remove(j);
